@@ -113,6 +113,29 @@ CLAIMS = {
   "accessors after the handler; the closure has no recover/defer and calls only read-only accessors; Recovery is registered outside Logger; special handlers see no route (C11.1 repeated) so the router-wide resolver is used there.",
   "Not decided: record content for every handler behaviour as observed; latency; what the slog.Handler does.",
   "DESIGN.md section 5 C20"),
+ "C01": (
+  "relational dataflow (len(params) vs. saved counter) on the syntax-level CFG of both matchers, guard-set facts, who-may-call and receiver checks over SSA, context dataflow for the empty-params precondition",
+  "Decides structural necessary conditions of correct selection and parameters: one matcher behind every entry point, each entry point looking up in its own root (transaction root / iterator snapshot / once-loaded tree) and "
+  "with RawPath when present; the counter saved with each skipped alternative always equals the number of recorded parameters and a backtrack restores both (the invariant whose violation dropped parameters after two nested "
+  "backtracks); lookups start with empty params; a leaf is a direct match only after full consumption of path and key (or catch-all / sub-lookup result); parameter alternatives are resumed before catch-all ones; a "
+  "trailing-slash candidate is returned only when no alternative is left.",
+  "NOT decided: that the matcher computes the documented relation for every route set (priority across splits, infix enumeration, host-then-path fallback), substitution round-trip. Those quantify over route sets and requests "
+  "and need execution or proof; the rules here are invariants of the algorithm as coded.",
+  "DESIGN.md section 5 C01"),
+ "C08": (
+  "guard-set (dominating branch facts) on the dispatch sites of ServeHTTP, constant propagation for the status, string-shape abstraction (const / escaped / decoded parts over phis and concatenations) at the Location sink",
+  "Decides dispatch and Location construction of trailing-slash actions: redirect only under tsr, method != CONNECT, URL.Path != \"/\", the matched route's redirect flag and path == CleanPath(path) for the very path value "
+  "handed to the matcher; ignore-dispatch under the first three and the matched route's ignore flag; 301 for GET else 308; the Location value contains nothing derived from the decoded path and begins with \"../\", \"./\" or a "
+  "segment tested free of ':' (the repaired defect); the query string is appended; every recorded trailing-slash candidate saves its parameters, taking sub-lookup candidates from the sub-context's tsr copy.",
+  "NOT decided: when a slash-adjusted route exists and which one is selected (matcher behaviour depending on how siblings split the radix nodes); that CleanPath is canonical (C17).",
+  "DESIGN.md section 5 C08"),
+ "C09": (
+  "guard-set on the host-to-path transition of the host matcher (syntax-level CFG), return-shape check of StripHostPort over SSA, dominance of the fallback resets",
+  "Decides: the path phase under a host node starts only when the whole host and the whole node key were consumed and through the '/' child (the repaired defect: hosts extending or truncating a registered hostname); the host "
+  "given to the matcher is StripHostPort(Host), non-empty; StripHostPort trims one trailing dot except for empty/unparsable input; the hostname result is returned exactly when a node was found; the path-only fallback starts with "
+  "params truncated and tsr cleared; the path-only shortcut only for a root whose single child is '/'.",
+  "NOT decided: label-by-label equality of hostname parameters for all hosts (walk-loop behaviour), choice among several hostname routes.",
+  "DESIGN.md section 5 C09"),
 }
 
 NOT_APPLICABLE = {
